@@ -447,7 +447,9 @@ func runC18UDP(c C18UDP, info *kit.Info) *kit.Finding {
 			if op.Src != "v4-loopback" {
 				info.NonTrivial = true
 			}
-			time.Sleep(300 * time.Microsecond)
+			// let the server process it before the next operation (replies it cannot relay produce nothing):
+			// keeps a failing case failing when it is replayed or minimised
+			cl.Pop(30 * time.Millisecond)
 		case "shutdown":
 			shut = true
 			info.NonTrivial = true
